@@ -17,6 +17,8 @@ CONSTANTS RPs, RBs,        \* values of REKEY_PACKETS, REKEY_BYTES explored
           MaxWire,         \* bound on unread peer packets (model checking only)
           Slack,           \* how far user threads can run past a threshold before the transport thread reacts
           ResetOnSet,      \* FALSE = mutation: set_*_cipher does not reset the counters
+          AskOnce,         \* FALSE = mutation: send_message re-triggers (and clears the overflow counters) on every
+                           \*         packet written past the limit, not only when it newly raises need_rekey
           CheckOverflow    \* FALSE = mutation: the overflow test is dropped
 
 VARIABLES lim,             \* [rp, rb, op, ob]: the four limits of this Packetizer (instance attributes), fixed
@@ -48,11 +50,15 @@ InitRest ==
 Init == lim \in [rp : RPs, rb : RBs, op : OPs, ob : OBs] /\ coop \in Coops /\ InitRest
 
 (* ---- Packetizer ---- *)
-\* send_message: counters, "only ask once"
+\* send_message, after the write: `if sent_too_much and not self.__need_rekey:` - the re-key is asked for ONCE;
+\* only then are the overflow counters cleared (they measure what the peer sends after being asked)
+TriggerOnSend(p, bts) ==
+    IF (p >= RP \/ bts >= RB) /\ (~need \/ ~AskOnce)
+      THEN need' = TRUE /\ op' = 0 /\ ob' = 0
+      ELSE UNCHANGED <<need, op, ob>>
+\* send_message: counters, then the trigger
 Count(len) == /\ sp' = sp + 1 /\ sb' = sb + len
-              /\ IF (sp + 1 >= RP \/ sb + len >= RB) /\ ~need
-                   THEN need' = TRUE /\ op' = 0 /\ ob' = 0
-                   ELSE UNCHANGED <<need, op, ob>>
+              /\ TriggerOnSend(sp + 1, sb + len)
 \* read_message: counters; packets received after we asked for a re-key count against the allowance
 CountRecv(len) == /\ rp' = rp + 1 /\ rb' = rb + len
                   /\ IF need THEN /\ op' = op + 1 /\ ob' = ob + len /\ need' = need
@@ -130,7 +136,7 @@ Work ==
             [] x = "newkeys" ->    \* _activate_outbound: NEWKEYS under the old keys, then set_outbound_cipher
                  /\ \E len \in Lens :
                       LET sp1 == sp + 1  sb1 == sb + len
-                          trig == (sp1 >= RP \/ sb1 >= RB) /\ ~need
+                          trig == (sp1 >= RP \/ sb1 >= RB) /\ (~need \/ ~AskOnce)
                           need1 == need \/ trig IN
                       /\ IF ResetOnSet THEN sp' = 0 /\ sb' = 0 ELSE sp' = sp1 /\ sb' = sb1
                       /\ IF trig THEN op' = 0 /\ ob' = 0 ELSE UNCHANGED <<op, ob>>
